@@ -267,7 +267,7 @@ impl Prop for C06 {
     type Case = InsCase;
     const ID: &'static str = "C06";
     fn rule() -> &'static str {
-        "single insert_row/push_row/insert_col/push_col on a freshly built array: exhaustive over shapes (0..=5)^2 x index 0..=dim+1 x supplied length 0..=dim+1 x element {u32,Tr,Zs} x {exact,spare} capacity x 4 iterator types, plus random shapes up to 40x40 (thorough: also Bx); oracle = rows-of-cells model + drop ledger. Non-trivial = accepted insert at an interior index of a non-empty array, or exact-capacity growth, or a rejected call. Distinct = distinct case tuple."
+        "single insert_row/push_row/insert_col/push_col on a freshly built array: exhaustive over shapes (0..=5)^2 x index 0..=dim+1 x supplied length 0..=dim+1 x element {u32,Tr,Zs} x {exact,spare} capacity x 4 iterator types, plus random shapes up to 40x40 (thorough: also Bx); oracle = rows-of-cells model + drop ledger. Non-trivial = accepted insert at an interior index of a non-empty array, or exact-capacity growth, or a rejected call. Distinct = distinct case tuple. Also: iterators announcing 2^62..2^64-1 items into empty and non-empty arrays (must panic, valid array afterwards); giant () histories with the insertions judged; element types u128, 3-byte, W40, Nd."
     }
     fn bound(_tier: Tier) -> String {
         "shapes (0..=5)^2, index 0..=dim+1, length 0..=dim+1, 3 element types, exact/spare capacity, 4 iterator kinds, insert+push forms".into()
@@ -625,7 +625,7 @@ impl Prop for C07 {
     type Case = RemCase;
     const ID: &'static str = "C07";
     fn rule() -> &'static str {
-        "single remove_row/pop_row/remove_col/pop_col on a freshly built array with a scripted drain: exhaustive over shapes (1..=6)^2 (+ empty for pop) x index 0..=dim x every (front,back) consumption split x element {u32,Tr,Zs} x {exact,spare} capacity, plus random shapes up to 40x40 with random interleavings of next/next_back/len/size_hint (also Bx); oracle = model line + model remainder + drop ledger. Non-trivial = drain partially consumed from both ends, or interior line of a multi-line array removed, or the last remaining line removed, or a rejected call / pop on empty. Distinct = distinct case tuple."
+        "single remove_row/pop_row/remove_col/pop_col on a freshly built array with a scripted drain: exhaustive over shapes (1..=6)^2 (+ empty for pop) x index 0..=dim x every (front,back) consumption split x element {u32,Tr,Zs} x {exact,spare} capacity, plus random shapes up to 40x40 with random interleavings of next/next_back/len/size_hint (also Bx); oracle = model line + model remainder + drop ledger. Non-trivial = drain partially consumed from both ends, or interior line of a multi-line array removed, or the last remaining line removed, or a rejected call / pop on empty. Distinct = distinct case tuple. Also: giant () histories with the removals judged; element types u128, 3-byte, W40, Nd."
     }
     fn bound(_tier: Tier) -> String {
         "shapes (1..=6)^2 plus (0,0), index 0..=dim, all (front,back) splits with front+back <= line length, 3 element types, exact/spare capacity, remove+pop forms".into()
